@@ -46,6 +46,11 @@ def main():
             patch = sh('git', '-C', WT, 'show', h).stdout
             ap = subprocess.run(['git', '-C', WT, 'apply', '-R'], input=patch, capture_output=True, text=True)
             rec = {'commit': h, 'property': prop, 'what': what[:160]}
+            manual = os.path.join(ROOT, 'selftest', 'manual', '%s_equivalent.diff' % h)
+            if ap.returncode and os.path.exists(manual):
+                # later repairs touch the same lines: a hand-written patch that takes the repaired behaviour out of HEAD again
+                ap = sh('git', '-C', WT, 'apply', manual)
+                rec['via'] = 'selftest/manual/%s_equivalent.diff' % h
             if ap.returncode:
                 rec['result'] = 'reverse-apply-failed'
                 rec['detail'] = ap.stderr[-300:]
@@ -65,9 +70,14 @@ def main():
         sh('git', '-C', REPO, 'worktree', 'remove', '--force', WT)
         shutil.rmtree('/tmp/vf_selftest', ignore_errors=True)
     os.makedirs(os.path.join(ROOT, 'selftest'), exist_ok=True)
-    if not want:
-        with open(os.path.join(ROOT, 'selftest', 'fix_reversal.json'), 'w') as f:
-            json.dump({'head': sh('git', '-C', REPO, 'rev-parse', '--short', 'HEAD').stdout.strip(), 'results': out}, f, indent=1)
+    path = os.path.join(ROOT, 'selftest', 'fix_reversal.json')
+    if want and os.path.exists(path):
+        # partial run: replace the entries of the commits that were re-tested
+        prev = json.load(open(path))['results']
+        new = {r['commit']: r for r in out}
+        out = [new.pop(r['commit'], r) for r in prev] + list(new.values())
+    with open(path, 'w') as f:
+        json.dump({'head': sh('git', '-C', REPO, 'rev-parse', '--short', 'HEAD').stdout.strip(), 'results': out}, f, indent=1)
     print('detected %d / %d' % (sum(r['result'] == 'detected' for r in out), len(out)))
     return 0
 
